@@ -1,0 +1,55 @@
+//go:build verif
+
+// Contracts for the deductive checker in /verif (comment-only; compiled only with -tags verif).
+// C07: the asynchronous writer accepts each Write completely or not at all, in order.
+//
+// Ghost state of a Writer: n = number of bytes accepted so far, acc[i] = i-th accepted byte,
+// items = number of accepted Write calls.  "Accepted" = handed to the queue by the non-blocking
+// send in Write; the queue (a Go channel) and the single consumer goroutine preserve order
+// (trusted semantics of channels; the scheduler is not modelled).
+// QueueFull() is an uninterpreted constant: properties that do not quantify over disk stalls
+// (C05, C06) require !QueueFull(); C07 itself does not.
+
+package asyncbufio
+
+//@ ufunc QueueFull() bool
+// stable(a): the array with reference a is never written again (claimed by a caller that cannot hand over a fresh buffer)
+//@ ufunc stable(a int) bool
+//@ ghost field Writer.n mathint
+//@ ghost field Writer.acc intmap
+//@ ghost field Writer.items mathint
+//@ ghost field Writer.mark intmap
+
+// mark[j] = offset at which accepted item j starts; mark[items] = n (end of the last item).
+//@ pred WInv(aw *Writer) := aw.items >= 0 && aw.n >= 0 && aw.mark[aw.items] == aw.n
+
+// The caller must hand over a buffer it allocated itself and will not touch again: the slice
+// (not a copy) sits in the queue until the consumer goroutine writes it out.
+//@ func (*Writer).Write
+//@   props C07 C05
+//@   requires owned: callerfresh(p) || stable(p.arr)
+//@   requires WInv(aw)
+//@   ensures inv: WInv(aw)
+//@   ensures marks: forall j int :: {aw.mark[j]} j <= old(aw.items) ==> aw.mark[j] == old(aw.mark[j])
+//@   ensures atomic: (result1 == nil && result0 == len(p) && aw.n == old(aw.n) + len(p) && aw.items == old(aw.items) + 1) || (result1 != nil && result0 == 0 && aw.n == old(aw.n) && aw.items == old(aw.items))
+//@   ensures kept: forall i int :: {aw.acc[i]} i < old(aw.n) ==> aw.acc[i] == old(aw.acc[i])
+//@   ensures appended: result1 == nil ==> (forall i int :: {aw.acc[i]} old(aw.n) <= i && i < aw.n ==> aw.acc[i] == at(p, p.off + i - old(aw.n)))
+//@   ensures roomy: !QueueFull() ==> result1 == nil
+//@   modifies aw.n, aw.acc, aw.items, aw.mark
+//@   assume errvar: io.ErrShortWrite != nil
+//@   opt select_default_only_if QueueFull()
+//@   ghost exit: aw.acc[i] := ite(result1 == nil && old(aw.n) <= i && i < old(aw.n) + len(p), at(p, p.off + i - old(aw.n)), old(aw.acc[i]))
+//@   ghost exit: aw.n := old(aw.n) + ite(result1 == nil, len(p), 0)
+//@   ghost exit: aw.items := old(aw.items) + ite(result1 == nil, 1, 0)
+//@   ghost exit: aw.mark[j] := ite(result1 == nil && j == old(aw.items) + 1, old(aw.n) + len(p), old(aw.mark[j]))
+
+//@ func (*Writer).WriteString
+//@   props C07 C05
+//@   requires WInv(aw)
+//@   ensures inv: WInv(aw)
+//@   ensures marks: forall j int :: {aw.mark[j]} j <= old(aw.items) ==> aw.mark[j] == old(aw.mark[j])
+//@   ensures atomic: (result1 == nil && result0 == len(s) && aw.n == old(aw.n) + len(s) && aw.items == old(aw.items) + 1) || (result1 != nil && result0 == 0 && aw.n == old(aw.n) && aw.items == old(aw.items))
+//@   ensures kept: forall i int :: {aw.acc[i]} i < old(aw.n) ==> aw.acc[i] == old(aw.acc[i])
+//@   ensures appended: result1 == nil ==> (forall i int :: {aw.acc[i]} old(aw.n) <= i && i < aw.n ==> aw.acc[i] == strat(s, i - old(aw.n)))
+//@   ensures roomy: !QueueFull() ==> result1 == nil
+//@   modifies aw.n, aw.acc, aw.items, aw.mark
